@@ -26,6 +26,10 @@ func runC14(c *Ctx) {
 	c14CtxPool(c)
 	c14Globals(c)
 	c14CloseAtomic(c)
+	handoverRule(c, "C14.handover")
+	c14Reentrant(c)
+	c14PoolAccounting(c)
+	c19Recheck(c, "C14")
 }
 
 // lockClassOf names the class of a mutex from the receiver of a Lock call:
